@@ -56,6 +56,8 @@ type tcase struct {
 	MsgEnds   []int  `json:"msg_ends,omitempty"` // stream offsets at which the honest messages end
 	// args / enc / target
 	Str HB `json:"str,omitempty"`
+	// glue: the logging configuration of obfs4proxy
+	Glue *glueCfg `json:"glue,omitempty"`
 }
 
 // ---------------------------------------------------------------- independent encoders / decoders
@@ -773,6 +775,8 @@ func check(r *vlib.Run, d *vlib.Driver, c tcase) {
 		checkEnc(r, d, c)
 	case "target":
 		checkTarget(r, d, c)
+	case "glue":
+		checkGlue(r, d, c)
 	}
 }
 
@@ -1223,7 +1227,7 @@ func main() {
 		"encodings up to 510 bytes spilling into the password, 7 chunkers per message), (b) the same messages pipelined with segment " +
 		"borders at/around the message ends, (c) malformed streams (mutated-valid, random) under 4 segmentations with/without EOF, " +
 		"(d) parseClientParameters on arbitrary strings (exhaustive over {\\,;,=,a}^<=n, random, adversarial escapes, mutated-valid, long), " +
-		"(e) encoder round trips, (f) target renderings. Non-trivial: a session in which the server wrote at least one reply and " +
+		"(e) encoder round trips, (f) target renderings, (g) the real clientHandler of obfs4proxy with a recording transport factory under 8 logging configurations (off/ERROR/INFO/DEBUG x unsafe on/off): arguments and address that reach ParseArgs/Dial. Non-trivial: a session in which the server wrote at least one reply and " +
 		"the input arrived in >= 2 segments; an argument string with >= 2 special characters; every encoder/target case. Distinct by canonical input text."
 	r.Assumptions = []string{
 		"conn.Read returns one queued segment per call and never 0 bytes (vlib.ScriptConn); write errors and the 5 s deadline firing are not modelled",
@@ -1240,6 +1244,7 @@ func main() {
 			os.Exit(3)
 		}
 		check(r, d, c)
+		glueStop()
 		r.Finish()
 	}
 
@@ -1339,5 +1344,12 @@ func main() {
 		}
 		r.Notes["exhaustive_chunkings"] = fmt.Sprintf("all %d+%d+%d compositions of the three messages of one exchange (one message varied at a time)", len(all[0]), len(all[1]), len(all[2]))
 	}
+	// the glue in obfs4proxy's clientHandler, under every logging configuration
+	for i, n := 0, r.Scale(40, 400); i < n; i++ {
+		for _, g := range glueCfgs {
+			check(r, d, genGlue(rng, g))
+		}
+	}
+	glueStop()
 	r.Finish()
 }
